@@ -346,7 +346,11 @@ def run_shard(ctx):
             sheets[nm] = (["list_name", "label"], [["e", "'x'"]])
         else:
             sheets[nm] = (["a", "b"], [["1", "2"]])
-        o = judge(ctx, sheets, f"sheet|{nm}", "sheet-name")
+            if n % 7 == 3:
+                # the real sheet is there but holds no row yet (a template): not a missing sheet
+                real = "settings" if lev(nm.lower(), "settings") <= lev(nm.lower(), "entities") else "entities"
+                sheets[real] = (["form_title"], []) if real == "settings" else (["list_name", "label"], [])
+        o = judge(ctx, sheets, f"sheet|{nm}|{len(sheets)}", "sheet-name")
         # advisory only: underscore-prefixing a near-miss must not change the XForm
         if o is not None and nm.lower() not in ("settings", "entities") and not nm.startswith("_"):
             s2 = {("_" + k if k == nm else k): v for k, v in sheets.items()}
